@@ -265,9 +265,53 @@ def check_deep(case: t.Any, ctx: Ctx) -> None:
         ctx.fail('table-rejects', f"{vkind}->{tname}", f"{cell}: accepted as {short(got, 80)} but the value is not a member ({r.why})")
 
 
+# ---- elements that are equal across kinds ---------------------------------------------------------------------------------------
+#
+# 1 == 1.0 == (1+0j) == True: in a set target (where equal elements would collapse in the result) each element is still judged by
+# its own kind - a float is not taken for an int because an equal int stands before it.
+
+SETDUP_TARGETS = {'Set[int]': t.Set[int], 'FrozenSet[int]': t.FrozenSet[int], 'AbstractSet[int]': t.AbstractSet[int], 'Set[float]': t.Set[float],
+                  'Set[bool]': t.Set[bool], 'Set[str]': t.Set[str], 'List[int]': t.List[int], 'Tuple[int, ...]': t.Tuple[int, ...], 'Dict[str, Set[int]]': t.Dict[str, t.Set[int]]}
+SETDUP_VALUES = [[1, 1.0], [1.0, 1], [3, 2, 3.0], [2, (2 + 0j)], [0.5, (0.5 + 0j)], [True, 1.0, 1], [0, False], ['a', b'a'], [1, 1], [1, 2]]
+
+
+def setdup_cases(shard: int, nshards: int) -> t.Iterator[t.Any]:
+    i = 0
+    for tn in SETDUP_TARGETS:
+        for vi in range(len(SETDUP_VALUES)):
+            if i % nshards == shard:
+                yield [tn, vi]
+            i += 1
+
+
+def check_setdup(case: t.Any, ctx: Ctx) -> None:
+    import pane
+    (tn, vi) = case
+    T = SETDUP_TARGETS[tn]
+    v = SETDUP_VALUES[vi]
+    elem = {'int': int, 'float': float, 'bool': bool, 'str': str}[tn.split('[')[-1].split(']')[0].split(',')[0].strip()]
+    admitted = {int: (int,), float: (int, float), bool: (bool,), str: (str,)}[elem]
+    if any(type(x) is bool for x in v) and elem in (int, float):
+        ctx.exclude('bool given to a numeric target (unspecified)')
+        return
+    want_ok = all(type(x) in admitted for x in v)
+    data = {'k': v} if tn.startswith('Dict') else v
+    ctx.label(f"target:{tn}", 'all-admitted' if want_ok else 'one-not-admitted')
+    ctx.nontrivial(not want_ok)
+    ctx.evaluated()
+    (k, r) = outcome(lambda: pane.from_data(data, T))
+    if want_ok and k != 'ok':
+        ctx.fail('table-accepts', f"equal-across-kinds:{tn}", f"from_data({data!r}, {tn}) refused although every element is of an admitted kind: {str(r)[:150]}")
+    elif not want_ok and k == 'ok':
+        ctx.fail('strict-kinds', f"equal-across-kinds:{tn}", f"from_data({data!r}, {tn}) returned {r!r}: an element of another kind was taken because it equals one of the right kind")
+    elif not want_ok and k != 'ce':
+        ctx.fail('strict-kinds', f"equal-across-kinds:{type(r).__name__}", f"from_data({data!r}, {tn}) raised {type(r).__name__}: {str(r)[:150]}")
+
+
 def suites(tier: str) -> t.List[Suite]:
     big = tier == 'thorough'
     return [
         Suite('matrix', check, cases=cases, exhaustive=True, budget_s=600, render=render),
+        Suite('equal-across-kinds', check_setdup, cases=setdup_cases, exhaustive=True, budget_s=30, render=lambda c: {'target': c[0], 'value': repr(SETDUP_VALUES[c[1]])}),
         Suite('deep', check_deep, strategy=deep_cases, examples=20000 if big else 1500, budget_s=300 if big else 20, render=render_deep),
     ]
